@@ -143,6 +143,57 @@ cdef int inline_then_bool() noexcept:
 
 cdef int cond_in_args() noexcept:
     return dv_f2(dv_a() if dv_b() else dv_c(), dv_d() or dv_e())
+
+cdef int nested_cond() noexcept:
+    return dv_a() if dv_b() else dv_c() if dv_d() else dv_e()
+
+cdef int not_or() noexcept:
+    return (not dv_a()) or dv_b()
+
+cdef int cmp_and_cmp() noexcept:
+    if dv_a() < dv_b() and dv_c() < dv_d():
+        return 1
+    return dv_e()
+
+cdef int locals_chain() noexcept:
+    cdef int x = dv_a()
+    cdef int y = x + dv_b()
+    return dv_f2(y, dv_c())
+
+cdef int aug_min() noexcept:
+    cdef int x = dv_a()
+    x += min(dv_b(), dv_c())
+    return x
+
+cdef int two_calls() noexcept:
+    return dv_f2(dv_a(), dv_b()) + dv_f2(dv_c(), dv_d())
+
+cdef int max_plus_min() noexcept:
+    return max(dv_a(), dv_b()) + min(dv_c(), dv_d())
+
+cdef int arith4() noexcept:
+    return dv_a() + dv_b() * dv_c() - dv_d()
+
+cdef int abs_abs() noexcept:
+    return abs(dv_a()) + abs(dv_b())
+
+cdef int eq_ne_chain() noexcept:
+    return dv_a() == dv_b() != dv_c()
+
+cdef int cond_of_minmax() noexcept:
+    return max(dv_a(), dv_b()) if dv_c() else min(dv_d(), dv_e())
+
+cdef int floordiv2() noexcept:
+    return dv_a() // (dv_b() * dv_b() + 1)
+
+cdef int mod2() noexcept:
+    return dv_a() % (dv_b() * dv_b() + 1)
+
+cdef int in_tuple() noexcept:
+    return dv_a() in (dv_b(), dv_c())
+
+cdef int not_in_tuple() noexcept:
+    return dv_a() not in (dv_b(), dv_c(), dv_d())
 '''
 
 CATALOGUE = EXTERN + BODY
@@ -214,6 +265,11 @@ class _Ref:
                 return a - b, tr
             if isinstance(n.op, ast.Mult):
                 return a * b, tr
+            if isinstance(n.op, (ast.FloorDiv, ast.Mod)):
+                # catalogue divisors are of the form x*x + 1 (positive): floor division / non-negative remainder, no ZeroDivisionError
+                if self.mode == "py":
+                    return (a // b if isinstance(n.op, ast.FloorDiv) else a % b), tr
+                return (a / b if isinstance(n.op, ast.FloorDiv) else a % b), tr
             raise pyref.OutOfSubset("operator")
         if isinstance(n, ast.UnaryOp):
             a, tr = self.ev(n.operand, env, tr)
@@ -234,6 +290,16 @@ class _Ref:
             a, tra = self.ev(n.body, env, tr)
             b, trb = self.ev(n.orelse, env, tr)
             return self.ite(self.truth(c), a, b), self.merge(self.truth(c), tra, trb)
+        if isinstance(n, ast.Compare) and len(n.ops) == 1 and isinstance(n.ops[0], (ast.In, ast.NotIn)) and isinstance(n.comparators[0], ast.Tuple):
+            # x in (a, b, ...): the left operand, then EVERY element of the display (the tuple is built before the test)
+            left, tr = self.ev(n.left, env, tr)
+            hit = False if self.mode == "py" else z3.BoolVal(False)
+            for el in n.comparators[0].elts:
+                v, tr = self.ev(el, env, tr)
+                hit = (hit or left == v) if self.mode == "py" else z3.Or(hit, left == v)
+            if isinstance(n.ops[0], ast.NotIn):
+                hit = (not hit) if self.mode == "py" else z3.Not(hit)
+            return self.b2i(hit), tr
         if isinstance(n, ast.Compare):
             left, tr = self.ev(n.left, env, tr)
             return self.chain(left, list(zip(n.ops, n.comparators)), env, tr)
@@ -406,6 +472,11 @@ def units(tier):
     us = []
     props = {"C20": None}
     callees = {nm: Leaf(i) for i, nm in enumerate(LEAVES)}
+    # `//` and `%` go through the division helpers, used here by the contracts proved for them (contracts/cmath.py)
+    from contracts.cmath import div_callee, mod_callee
+    for sn in ("int", "long"):
+        callees["__Pyx_div_" + sn] = div_callee("__Pyx_div_" + sn)
+        callees["__Pyx_mod_" + sn] = mod_callee("__Pyx_mod_" + sn)
     for name in FUNCS:
         u = L3Unit("L3order.%s" % name, props, CATALOGUE, name, callees=callees,
                    ensures=[("the leaf calls happen in Python's evaluation order, each at most once, stopping where Python stops; the value is Python's", _post(name))],
